@@ -43,6 +43,7 @@ def float_arith(op, a, b):
     return ('f', r[0], r[1])
 
 
+TRUNC_SOURCES = ('$fsize', '$got', '$strlen', '$strnlen', '$atoi', '$rand', '$tr', '$argc', '$consumed')
 CTOR_CONSTS = {}        # member declaration -> {class: constant}: see ensure_ctor_consts
 _CC_DONE = []
 
@@ -690,6 +691,10 @@ class Interp:
     ev_CXXBoolLiteralExpr = ev_IntegerLiteral
     ev_UnaryExprOrTypeTraitExpr = ev_IntegerLiteral
 
+    def ev_PredefinedExpr(self, n, st, fr):
+        # __func__ / __PRETTY_FUNCTION__: some string
+        return [(st, P(('str', self.frames[-1].fn['q'] if self.frames else '?'), (0,)))]
+
     def ev_FloatingLiteral(self, n, st, fr):
         return [(st, ('opaque', 'float'))]
 
@@ -989,8 +994,11 @@ class Interp:
         sees it', a named unknown with the range of the type.  Narrowing ones (fewer bits than the source computation, or a
         sign change) are remembered so that a rule can ask whether such a value ever decided a branch; a wrap inside unsigned
         arithmetic of the same width (a - b in size_t) is named too but is never reported by itself."""
-        if any(str(sy).startswith('$w') for sy, _ in v[2]):
-            return r_       # a widened loop value has no range of its own: nothing is learnt by naming its conversion
+        if any(str(sy).startswith('$') and not str(sy).startswith(TRUNC_SOURCES) for sy, _ in v[2]):
+            # only quantities that come from outside (sizes, counts, numbers typed by the user, generator values) or that a rule
+            # introduced by name are followed through a conversion; interpreter-made unknowns (widened loop values, named
+            # intervals, invariants) have no range of their own and naming their conversion only costs precision elsewhere
+            return r_
         vr = rng(v, s.sym, None)
         tr_ = type_range(t)
         if vr is None or tr_ is None or (tr_[0] <= vr[0] and vr[1] <= tr_[1]):
